@@ -91,6 +91,13 @@ class _BytesMeta(type):
 
 class BytesLike(metaclass=_BytesMeta):
     """stands in for `bytes` (callable and isinstance target)"""
+    @staticmethod
+    def fromhex(s):
+        if isinstance(s, Rope):
+            raise Unsupported('bytes.fromhex of abstract text')
+        return builtins.bytes.fromhex(s)
+
+    maketrans = staticmethod(builtins.bytes.maketrans)
 
 
 _WS = ' \t\n\r\x0b\x0c\x1c\x1d\x1e\x1f\x85\xa0'
@@ -749,6 +756,17 @@ class StrippableText(TRope):
         core.assume(L <= p.length())
         r = StrippableText([Opq(p.src, p.lo, p.lo + L, p.chain)])
         r.stripped_of = self
+        r.strip_kind = 'right'
+        return r
+
+    def strip(self, chars=None):
+        r = self.rstrip(chars)
+        r.strip_kind = 'both'
+        return r
+
+    def lstrip(self, chars=None):
+        r = self.rstrip(chars)
+        r.strip_kind = 'left'
         return r
 
 
